@@ -364,8 +364,7 @@ Z_FACTS = ["etc_width", "tl_width"]
 SEL_FACTS = ["em_sel", "tr_sel"]
 
 
-def gen_codec() -> str:
-    f = facts()
+def render(f: dict) -> str:
     out = ["(* GENERATED by harness/gen_codec.py from the current source tree -- do not edit. *)",
            "From Coq Require Import ZArith String.",
            "From PD Require Import Model.Codec.",
@@ -381,6 +380,28 @@ def gen_codec() -> str:
             raise TranslateError(f"{k}: {f[k]!r}")
         out.append(f"Definition g_{k} : member_sel := {f[k]}.")
     return "\n".join(out) + "\n"
+
+
+def gen_codec() -> str:
+    return render(facts())
+
+
+# The facts of the tree the model was written against.  Used by harness/props/C08.py only as the
+# fallback of DESIGN.md 2.2 (translator rejects the source, or a proof over the fresh text fails): the
+# theorems are then about these facts and the tie to /repo is the correspondence run alone.
+GOLDEN_FACTS = {
+    "em_key": "emulsion", "em_attr_w": "droplet_class", "em_attr_r": "droplet_class",
+    "em_none_w": "None", "em_none_r": "None", "em_sel": "First",
+    "tr_key": "droplet_track", "tr_attr_w": "droplet_class", "tr_attr_r": "droplet_class",
+    "tr_none_w": "None", "tr_none_r": "None", "tr_sel": "First",
+    "tr_time_w": "time", "tr_time_r": "time", "tr_time_drop": "time", "tr_time_first": True,
+    "etc_prefix": "time_", "etc_width": 6, "etc_time_w": "time", "etc_time_r": "time", "etc_sorted": True,
+    "tl_prefix": "track_", "tl_width": 6, "tl_sorted": True,
+}
+
+
+def golden() -> str:
+    return render(GOLDEN_FACTS).replace("from the current source tree", "from GOLDEN_FACTS (fallback)")
 
 
 GENERATORS = {"Gen_codec": gen_codec}
